@@ -36,6 +36,30 @@ def run_worker_corr(out, corr, rnd, n_cases, tag):
         nontrivial_flags.append(len(fin[2]) >= 2 or bool(reps))
         for sig, detail in gen_worker.monitor(c, r):
             out.report(sig, {"detail": detail, "case": c}, c)
+    # ---- race search (implementation only, not compared with the model): the same streams with the main thread
+    # preemptible at EVERY full lock release, not only at observable progress. On code whose shared state is only
+    # touched inside lock sections this explores nothing new; it is what turns a broken correspondence caused by a
+    # narrowed/split critical section into a concrete schedule.
+    fine = [gen_worker.gen_case(rnd, wf=True) for _ in range(max(50, n_cases // 3))]
+    for c in fine:
+        c["trace"] = True
+        c["fine"] = True
+    fres = run_jobs("drive_worker.py", fine, nproc=14)
+    asleep = 0
+    for c, r in zip(fine, fres):
+        if not r or r[0] == "exc" or isinstance(r[0], str):
+            out.report({"kind": "worker-exception", "exc": r[1] if r and len(r) > 1 else "?", "fine": True}, {"case": c, "result": r}, c)
+            continue
+        tail = r[-1]
+        if isinstance(tail, dict):
+            if tail["asleep"] and tail["queue"]:
+                asleep += 1
+                out.report({"kind": "worker-asleep-with-a-non-empty-queue"}, {"queue": tail["queue"], "event_flag": tail["flag"], "case": c}, c)
+            r = r[:-1]
+        for sig, detail in gen_worker.monitor(c, r):
+            out.report(dict(sig, fine=True), {"detail": detail, "case": c}, c)
+    out.coverage.setdefault("race_search", {})[tag] = {"cases": len(fine), "asleep_with_work": asleep}
+    out.coverage["evaluations"] = out.coverage.get("evaluations", 0) + len(fine)
     flags = iter(nontrivial_flags)
     ntmap = {common.to_line(i): f for i, f in zip(inputs, nontrivial_flags)}
     corr.compare(tag, "worker_trace", inputs, res, nontrivial=lambda i, o: ntmap.get(common.to_line(i), False),
